@@ -12,7 +12,7 @@ use std::{
     str::{self, Utf8Error},
 };
 
-use crossbeam_channel::{Receiver, Sender, bounded, unbounded};
+use crossbeam_channel::{Receiver, Sender, bounded, never, unbounded};
 use derive_setters::Setters;
 use ignore::Match;
 use ignore::overrides::Override;
@@ -634,6 +634,8 @@ pub struct TreeStreamerOnce {
     counter: Vec<usize>,
     /// The number of finished trees
     finished_ids: usize,
+    /// The tree loader threads; joined once all trees are finished
+    loaders: Vec<std::thread::JoinHandle<()>>,
 }
 
 impl TreeStreamerOnce {
@@ -664,20 +666,24 @@ impl TreeStreamerOnce {
         let (out_tx, out_rx) = bounded(constants::MAX_TREE_LOADER);
         let (in_tx, in_rx) = unbounded();
 
+        let mut loaders = Vec::with_capacity(constants::MAX_TREE_LOADER);
         for _ in 0..constants::MAX_TREE_LOADER {
             let be = be.clone();
             let index = index.clone();
             let in_rx = in_rx.clone();
             let out_tx = out_tx.clone();
-            let _join_handle = std::thread::spawn(move || {
+            let join_handle = std::thread::spawn(move || {
                 for (path, id, count) in in_rx {
-                    out_tx
-                        .send(Tree::from_backend(&be, &index, id).map(|tree| (path, tree, count)))
-                        .unwrap();
+                    let tree = Tree::from_backend(&be, &index, id).map(|tree| (path, tree, count));
+                    // the streamer was dropped before it finished (e.g. after an error): stop
+                    if out_tx.send(tree).is_err() {
+                        break;
+                    }
                 }
                 #[cfg(feature = "verif")]
                 crate::verif::point::hit("tree_loader.exit");
             });
+            loaders.push(join_handle);
         }
 
         let counter = vec![0; ids.len()];
@@ -688,6 +694,7 @@ impl TreeStreamerOnce {
             p,
             counter,
             finished_ids: 0,
+            loaders,
         };
 
         for (count, id) in ids.into_iter().enumerate() {
@@ -746,12 +753,29 @@ impl TreeStreamerOnce {
     }
 }
 
+impl Drop for TreeStreamerOnce {
+    fn drop(&mut self) {
+        // If the streamer is dropped before all trees are finished, stop the loaders: they get no
+        // more input and fail to deliver their output. Then wait for them, see `next()`.
+        drop(self.queue_in.take());
+        drop(std::mem::replace(&mut self.queue_out, never()));
+        for loader in self.loaders.drain(..) {
+            _ = loader.join();
+        }
+    }
+}
+
 impl Iterator for TreeStreamerOnce {
     type Item = TreeStreamItem;
 
     fn next(&mut self) -> Option<Self::Item> {
         if self.counter.len() == self.finished_ids {
             drop(self.queue_in.take());
+            // All results have been received, so the loaders are idle and end now. Wait for them:
+            // they hold clones of the backend and the index which callers may want to unwrap.
+            for loader in self.loaders.drain(..) {
+                _ = loader.join();
+            }
             self.p.finish();
             return None;
         }
